@@ -64,6 +64,8 @@ def dispatch(ip, st, ci):
         return None
     USED.add(h.__name__)
     r = h(ip, st, ci)
+    if r is None:
+        return None
     if isinstance(r, list):
         return r
     return [(st, r)]
@@ -1389,3 +1391,13 @@ def iter_fold(ip, st, ci):
         return out
     states = summarise_call_loop(ip, st, ci["fr"], N, runner)
     return [(s, s.heap[cell]) for s in states]
+
+
+@prim("clone::Clone::clone_from")
+def clone_clone_from(ip, st, ci):
+    dst, src = tg_of(ci["args"][0]), tg_of(ci["args"][1])
+    body = ip.find_body(ci["fr"].crate, ci["fn"])
+    if body is not None:
+        return None      # a workspace type's own clone_from: inline it
+    ip.store(st, dst, ip.load(st, src))
+    return vunit()
